@@ -1,9 +1,12 @@
 from check import run_diff_property
+import lib
 
 CFG = dict(
-    streams=[('rw', 2500, 40000)],
-    oracle_ops={'rwspec09'},
-    ops_filter={'rw', 'rwspec09'},
+    streams=[('rw', 2500, 40000), ('e2e', 150, 2500)],
+    oracle_ops={'rwspec09', 'e2e'},
+    twophase_ops={'e2e'},
+    project={'e2e': lib.proj_e2e({'xff', 'xfp', 'xfh', 'fwdh'})},
+    ops_filter={'rw', 'rwspec09', 'e2e'},
     rule=("HTTPHandler.ServeHTTP in-process: 0-2 client X-Forwarded-For lines (single, list, empty), client "
           "X-Forwarded-Proto/-Host/Forwarded in random letter case, remote addresses IPv4 / IPv6 / zone / malformed, "
           "Host variants, PreserveHost on/off, inbound TLS flag on/off. non-trivial = every case"),
